@@ -142,6 +142,8 @@ func (c *Ctx) Fatal(caseNo int64) string { return "fatal:" + c.Poison[caseNo] }
 // Expired reports whether the internal deadline has passed; the first time it does the shard is
 // marked non-exhaustive.
 func (c *Ctx) Expired() bool {
+	// polling the deadline is a sign of life between the executions of one long case
+	c.lastBeat.Store(time.Now().UnixNano())
 	if c.expired {
 		return true
 	}
